@@ -61,22 +61,25 @@ seq_t dtw_warping_paths{{ suffix }}{{ suffix2 }}(seq_t *wps,
     {%- if "affinity" not in suffix %}
     if (settings->use_pruning || settings->only_ub) {
         if (ndim == 1) {
-            p.max_dist = ub_euclidean(s1, l1, s2, l2);
+            p.max_dist = ub_euclidean{{ suffix2 }}(s1, l1, s2, l2);
         } else {
-            p.max_dist = ub_euclidean_ndim(s1, l1, s2, l2, ndim);
+            p.max_dist = ub_euclidean_ndim{{ suffix2 }}(s1, l1, s2, l2, ndim);
         }
         {%- if "euclidean" == inner_dist %}
+        if (settings->only_ub) {
+            return p.max_dist;
+        }
         {%- else %}
+        if (settings->only_ub) {
+            if (keep_int_repr) {
+                return pow(p.max_dist, 2);
+            } else {
+                return p.max_dist;
+            }
+        }
         // sqrt followed by pow can round below the exact sum, keep the bound an upper bound
         p.max_dist = pow(p.max_dist, 2) * (1 + 4*DBL_EPSILON);
         {%- endif %}
-        if (settings->only_ub) {
-            if (keep_int_repr) {
-                return p.max_dist;
-            } else {
-                return sqrt(p.max_dist);
-            }
-        }
     }
     {%- endif %}
 
